@@ -996,7 +996,9 @@ def register(R):
             ensure_body(l)
         g = body_of_attempt(l.st)
         out = {'write_position_tracks_body_position': to_int_term(l.local('current_index')) == to_int_term(l.local('start_index')) + g['pos'],
-               'body_position_in_range': z3.And(g['pos'] >= 0, g['pos'] <= g['len'])}
+               'body_position_in_range': z3.And(g['pos'] >= 0, g['pos'] <= g['len']),
+               # C09: the running progress total of this download task equals the bytes delivered in this attempt
+               'progress_total_equals_bytes_delivered_in_this_attempt': to_int_term(l.st.ghost['reported']) == g['pos']}
         out.update(stream_link(l.st))
         return out
 
@@ -1066,6 +1068,7 @@ def register(R):
             q.fields['_next_offset'] = z3.Int(fresh_name('next_offset'))
 
     def got_setup(eng, st, args, self_val):
+        st.ghost['reported'] = z3.IntVal(0)
         streamed(st, args['fileobj'])
         mgr = args['download_output_manager']
         if is_streaming(st, mgr):
@@ -1087,6 +1090,8 @@ def register(R):
             # attempt delivered its whole body
             'normal_return_means_whole_body_delivered_or_transfer_done': (
                 z3.Or(stopped_by_done, g['pos'] == g['len']) if g is not None else B(False), ['C02', 'C03']),
+            'successful_part_reported_exactly_its_size': (
+                z3.Or(stopped_by_done, to_int_term(c.new.st.ghost['reported']) == g['len']) if g is not None else B(False), ['C09']),
         }
         return out
 
@@ -1105,7 +1110,8 @@ def register(R):
         setup=got_setup, checks=got_checks,
         raises={'s3transfer.exceptions:RetriesExceededError': got_raises_retries, 'Exception': lambda c: {}},
         raise_when={'Exception': lambda c: None},
-        loops={0: LoopSpec(invariant=lambda l: stream_link(l.st), iteration_checks=got_outer_iteration, havoc_heap=got_outer_havoc,
+        loops={0: LoopSpec(invariant=lambda l: dict(stream_link(l.st), abandoned_attempts_net_to_zero_progress=to_int_term(l.st.ghost['reported']) == 0),
+                           iteration_checks=got_outer_iteration, havoc_heap=got_outer_havoc,
                            local_types={'last_exception': OptT(ExtT('exception')), 'current_index': Int}),
                1: LoopSpec(invariant=got_inner_inv, havoc_heap=got_inner_havoc, iteration_checks=got_inner_iteration)},
     )
